@@ -124,7 +124,8 @@ theorem rollbackSavepoint_eq {s : State} {t : TmpStore} (hsp : s.sp = some t) (p
 theorem rollbackSavepoint_facts {s : State} {t : TmpStore} (hS : Str [] s) (hsp : s.sp = some t)
     (hregOid : ∀ i ∈ s.registered, (s.objs i).oid ≠ none)
     (hchanged : ∀ i, (s.objs i).status = .changed → i ∈ s.registered)
-    (hadded : ∀ k i, s.added.get k = some i → i ∈ s.registered) (hcrn : s.creating = []) (p idx cr) :
+    (hadded : ∀ k i, s.added.get k = some i → i ∈ s.registered) (hcrn : s.creating = [])
+    (hcrIdx : ∀ k, t.creating.has k = true → t.index.get k ≠ none) (p idx cr) :
     RollbackFacts s t p idx cr (rollbackSavepoint s p idx cr) := by
   rw [rollbackSavepoint_eq hsp]
   let K : Nat → Prop := fun k => s.added.get k = none ∧ ¬ (t.creating.has k = true ∧ cr.has k = false)
@@ -161,16 +162,35 @@ theorem rollbackSavepoint_facts {s : State} {t : TmpStore} (hS : Str [] s) (hsp 
     exact (((kA.trans k1).trans kB).trans k2).trans k3
   have hreg : ∀ i ∈ s.registered, ∀ k, (s.objs i).oid = some k →
       (s.added.get k = some i → (R.objs i).oid = none) ∧
-      (s.added.get k = none → (R.objs i).status = .ghost ∨ (R.objs i).oid = none) := by
+      (s.added.get k = none → t.creating.has k = false →
+        (R.objs i).status = .ghost ∨ (R.objs i).oid = none) := by
     intro i hi k hk
     obtain ⟨e1, e2⟩ := eA i hi k hk
     constructor
     · intro ha
       rw [shAR.noneKept i (e1 ha)]; exact e1 ha
-    · intro ha
-      rcases e2 ha (by rw [hcrn]; rfl) with h1 | h1
+    · intro ha htc
+      rcases e2 ha (by rw [hcrn]; rfl) (by unfold tmpCreated; rw [hsp]; exact htc) with h1 | h1
       · exact Or.inl (shAR.ghostKept i h1)
       · right; rw [shAR.noneKept i h1]; exact h1
+  have haddR : R.added = [] := by
+    apply Map.eq_nil_of_get_none
+    intro k
+    cases hc : R.added.get k with
+    | none => rfl
+    | some j =>
+      exfalso
+      have h1 := sh.added k j hc
+      have := (hreg j (hadded k j h1) k (hS.addedS k j h1).1).1 h1
+      have h3 := (cR.1.addedS k j hc).1
+      rw [this] at h3; cases h3
+  have huncR : ∀ k, t.creating.has k = true → cr.has k = false → R.cache.get k = none := by
+    intro k h1 h2
+    cases hc : R.cache.get k with
+    | none => rfl
+    | some i =>
+      have := shBR.cache k i hc
+      rw [eB k (mem_lateKeys.2 ⟨h1, h2⟩)] at this; cases this
   refine ⟨⟨cR.1, sh⟩, ?_, ?_, ?_, ?_, ?_, ?_, ?_, ?_, ?_, ?_, ?_⟩
   · rw [← hRdef, invalidateAll_sp]; rfl
   · rw [← hRdef, invalidateAll_registered]
@@ -192,16 +212,7 @@ theorem rollbackSavepoint_facts {s : State} {t : TmpStore} (hS : Str [] s) (hsp 
     show (abortObjs s).needsToJoin = _
     rw [abortObjs_ntj]
   · rw [← hRdef]; simp
-  · apply Map.eq_nil_of_get_none
-    intro k
-    cases hc : R.added.get k with
-    | none => rfl
-    | some j =>
-      exfalso
-      have h1 := sh.added k j hc
-      have := (hreg j (hadded k j h1) k (hS.addedS k j h1).1).1 h1
-      have h3 := (cR.1.addedS k j hc).1
-      rw [this] at h3; cases h3
+  · exact haddR
   · intro j hch
     have hts : (s.objs j).status = .changed := by
       rcases sh.status j with h1 | h1 | h1
@@ -213,7 +224,27 @@ theorem rollbackSavepoint_facts {s : State} {t : TmpStore} (hS : Str [] s) (hsp 
     obtain ⟨e1, e2⟩ := hreg j hr k hk
     have hcases : (R.objs j).status = .ghost ∨ (R.objs j).oid = none := by
       cases ha : s.added.get k with
-      | none => exact e2 ha
+      | none =>
+        cases htc : t.creating.has k with
+        | false => exact e2 ha htc
+        | true =>
+          -- created in a savepoint and modified later: left alone by `_abort`; un-created when it is
+          -- younger than the savepoint, otherwise invalidated with the saved index
+          have hcachedOr : (R.objs j).oid = none ∨ R.cache.get k = some j := by
+            rcases sh.oid j with h1 | h1
+            · right
+              have hoid : (R.objs j).oid = some k := by rw [h1]; exact hk
+              have hkn := cR.1.known j k hoid
+              simp only [List.not_mem_nil, or_false, haddR, Map.get_nil] at hkn
+              rcases hkn with h2 | h2
+              · exact h2
+              · cases h2
+            · exact Or.inl h1.1
+          rcases hcachedOr with h1 | h1
+          · exact Or.inr h1
+          · cases hcr : cr.has k with
+            | false => rw [huncR k htc hcr] at h1; cases h1
+            | true => exact Or.inl (eR k (Map.mem_keys_iff.2 (hcrIdx k htc)) j h1)
       | some j' =>
         have := hS.inj j' j k (hS.addedS k j' ha).1 hk
         subst this
@@ -221,12 +252,7 @@ theorem rollbackSavepoint_facts {s : State} {t : TmpStore} (hS : Str [] s) (hsp 
     rcases hcases with h1 | h1
     · rw [h1] at hch; cases hch
     · exact sh.disownedClean j h1 (by rw [hk]; simp) hch
-  · intro k h1 h2
-    cases hc : R.cache.get k with
-    | none => rfl
-    | some i =>
-      have := shBR.cache k i hc
-      rw [eB k (mem_lateKeys.2 ⟨h1, h2⟩)] at this; cases this
+  · exact huncR
   · intro k hk i hi
     exact eR k (Map.mem_keys_iff.2 hk) i hi
   · intro j k hj ha hn
@@ -255,7 +281,7 @@ theorem rollbackReal_inv12 {s : State} (h : Inv12 s) {n p : Nat} {idx : Map Nat}
   obtain ⟨t, hsp, hj, we, w⟩ := h.real_entry hn
   have hS' : Str [] { s with sps := invalidateAfter n s.sps } := h.str.congr rfl rfl rfl rfl
   have F := rollbackSavepoint_facts (s := { s with sps := invalidateAfter n s.sps }) hS' hsp
-    h.regOid h.changedReg h.addedReg h.creatingNil p idx cr
+    h.regOid h.changedReg h.addedReg h.creatingNil (fun k hk => (w.crIdx k hk).1) p idx cr
   generalize rollbackSavepoint { s with sps := invalidateAfter n s.sps } p idx cr = R at *
   have sh := F.clean.2
   have hSR := F.clean.1
